@@ -91,7 +91,10 @@ void Variant::set(const char *value, const size_t len) {
         data = std::realloc(v_string, len_plus_null);
     }
 
-    std::memcpy(data, value, len);
+    if (len > 0) {
+        // value may be a null pointer for a string cell that was never written
+        std::memcpy(data, value, len);
+    }
     v_string = static_cast<char *>(data);
     v_string[len] = '\0';
 }
